@@ -21,7 +21,6 @@ Proof.
   - intros Hin. exists k. split; [exact Hin | apply String.eqb_refl].
 Qed.
 
-Definition is_some {A} (o : option A) : bool := match o with Some _ => true | None => false end.
 
 (** the hand-written chain [key_id] recognises exactly the string literals of the match arms
     of format_state, as regenerated from src/style.rs into FORMAT_KEYS *)
@@ -102,13 +101,13 @@ Open Scope string_scope.
 
 (** For every documented key and EVERY snapshot (every position/length pair, tick count,
     message, clock reading) the code's arm computes getter o formatter as documented. *)
-Lemma table_correct : forall (F : formatters) (ticks : list text) (s : snapshot) (k : string)
+Lemma table_correct : forall (F : formatters) (ticks : list text) (tab : N) (s : snapshot) (k : string)
                              (w : option N),
   In k DOCUMENTED_KEYS ->
   (k = "per_sec" -> w = None) ->
-  key_value F ticks s k w = documented F ticks s k w.
+  key_value F ticks tab s k w = documented F ticks tab s k w.
 Proof.
-  intros F ticks s k w Hin Hq. unfold DOCUMENTED_KEYS in Hin. cbn [In] in Hin.
+  intros F ticks tab s k w Hin Hq. unfold DOCUMENTED_KEYS in Hin. cbn [In] in Hin.
   unfold key_value, documented.
   repeat (destruct Hin as [<- | Hin];
           [ eval_key;
@@ -119,69 +118,119 @@ Proof.
 Qed.
 
 (** the one undocumented behaviour of the dispatch: a width on per_sec is also the precision *)
-Lemma per_sec_width : forall F ticks s w,
-  key_value F ticks s "per_sec" (Some w)
+Lemma per_sec_width : forall F ticks tab s w,
+  key_value F ticks tab s "per_sec" (Some w)
   = ((f_hfloat F (Some w) (o_per_sec (s_obs s)) ++ per_s)%list, None).
 Proof. intros. reflexivity. Qed.
 
-Lemma unknown_key_empty : forall F ticks s k w,
-  ~ In k FORMAT_KEYS -> key_value F ticks s k w = ([], None).
+Lemma unknown_key_empty : forall F ticks tab s k w,
+  ~ In k FORMAT_KEYS -> key_value F ticks tab s k w = ([], None).
 Proof.
-  intros F ticks s k w Hn. unfold key_value.
+  intros F ticks tab s k w Hn. unfold key_value.
   destruct (key_id k) as [b |] eqn:E; [| reflexivity].
   exfalso. apply Hn. eapply key_id_some_in; eauto.
 Qed.
 
 (** ------------------------------------------------------------------ missing length *)
-Definition with_s_len (s : snapshot) (l : option N) : snapshot :=
-  {| s_pos := s_pos s; s_len := l; s_tick := s_tick s; s_finished := s_finished s;
-     s_message := s_message s; s_prefix := s_prefix s; s_obs := s_obs s |}.
+(* [with_s_len], like the rest of the vocabulary of the statements (is_some, part_text, part_narrow,
+   single_line, unsplit, op_draws, apply_event, step_events, bar_events, on_trackers, spins, fin_kind,
+   to_pops, proj, doc_part, doc_text, line_alone, line_ok, doc_part_ml, doc_line), is defined in
+   model/Keys.v; the sections below abbreviate their section arguments *)
 
-Lemma missing_len_all_keys : forall F ticks s k w,
+Lemma missing_len_all_keys : forall F ticks tab s k w,
   s_len s = None ->
-  key_value F ticks s k w = key_value F ticks (with_s_len s (Some (s_pos s))) k w.
+  key_value F ticks tab s k w = key_value F ticks tab (with_s_len s (Some (s_pos s))) k w.
 Proof.
-  intros F ticks s k w Hl. unfold key_value. destruct (key_id k) as [b |]; [| reflexivity].
+  intros F ticks tab s k w Hl. unfold key_value. destruct (key_id k) as [b |]; [| reflexivity].
   destruct b; cbv [builtin_value with_s_len s_len s_pos s_obs current_tick_str s_finished s_tick
                    s_message s_prefix]; destruct s; cbn in Hl; subst; reflexivity.
 Qed.
 
-Lemma missing_len_values : forall F ticks s w,
+Lemma missing_len_values : forall F ticks tab s w,
   s_len s = None ->
-  key_value F ticks s "len" w = (dec_text (s_pos s), None)
-  /\ key_value F ticks s "human_len" w = (f_count F (s_pos s), None)
-  /\ key_value F ticks s "total_bytes" w = (f_hbytes F (s_pos s), None)
-  /\ key_value F ticks s "decimal_total_bytes" w = (f_dbytes F (s_pos s), None)
-  /\ key_value F ticks s "binary_total_bytes" w = (f_bbytes F (s_pos s), None).
+  key_value F ticks tab s "len" w = (dec_text (s_pos s), None)
+  /\ key_value F ticks tab s "human_len" w = (f_count F (s_pos s), None)
+  /\ key_value F ticks tab s "total_bytes" w = (f_hbytes F (s_pos s), None)
+  /\ key_value F ticks tab s "decimal_total_bytes" w = (f_dbytes F (s_pos s), None)
+  /\ key_value F ticks tab s "binary_total_bytes" w = (f_bbytes F (s_pos s), None).
 Proof.
-  intros F ticks s w Hl. unfold key_value. eval_key. cbv [builtin_value]. rewrite Hl.
+  intros F ticks tab s w Hl. unfold key_value. eval_key. cbv [builtin_value]. rewrite Hl.
   repeat split; reflexivity.
 Qed.
 
 (** ------------------------------------------------------------------ spinner *)
-Lemma spinner_value : forall F ticks s w,
+(** the tick string the code selects (style.rs:176-191), before the TabRewriter *)
+Lemma current_tick_str_spec : forall ticks s,
+  current_tick_str ticks s =
+    (if s_finished s then last ticks []
+     else nth (N.to_nat (s_tick s mod (N.of_nat (List.length ticks) - 1))) ticks []).
+Proof.
+  intros ticks s. cbv [current_tick_str get_tick_str get_final_tick_str].
+  rewrite nth_last. reflexivity.
+Qed.
+
+(** what the TabRewriter does to a text: nothing if it has no TAB; afterwards no TAB is left *)
+Lemma expand_tabs_no_tab : forall w t, ~ In 9 t -> expand_tabs w t = t.
+Proof.
+  intros w t. unfold expand_tabs. induction t as [| c r IH]; intros Hn; [reflexivity |].
+  cbn [flat_map]. destruct (N.eqb_spec c 9) as [-> | Hc].
+  - exfalso. apply Hn. left. reflexivity.
+  - cbn [app]. f_equal. apply IH. intros Hin. apply Hn. right. exact Hin.
+Qed.
+
+Lemma spaces_no_tab : forall n, ~ In 9 (spaces n).
+Proof.
+  intros n. unfold spaces. induction n as [| n IH] using N.peano_ind.
+  - cbn. tauto.
+  - rewrite N.iter_succ. intros [H | H]; [discriminate H | exact (IH H)].
+Qed.
+
+Lemma expand_tabs_tab_free : forall w t, ~ In 9 (expand_tabs w t).
+Proof.
+  intros w t. unfold expand_tabs. induction t as [| c r IH]; [cbn; tauto |].
+  cbn [flat_map]. intros Hin. apply in_app_or in Hin. destruct Hin as [Hin | Hin]; [| exact (IH Hin)].
+  destruct (N.eqb_spec c 9) as [-> | Hc].
+  - exact (spaces_no_tab w Hin).
+  - destruct Hin as [H | []]. apply Hc. exact H.
+Qed.
+
+Lemma spinner_value : forall F ticks tab s w,
   (2 <= List.length ticks)%nat ->
   let n := N.of_nat (List.length ticks) in
-  fst (key_value F ticks s "spinner" w) =
-    (if s_finished s then last ticks []
-     else nth (N.to_nat (s_tick s mod (n - 1))) ticks [])
+  fst (key_value F ticks tab s "spinner" w) =
+    expand_tabs tab
+      (if s_finished s then last ticks []
+       else nth (N.to_nat (s_tick s mod (n - 1))) ticks [])
   /\ (s_tick s mod (n - 1) < n - 1).
 Proof.
-  intros F ticks s w Hn n. unfold key_value. eval_key.
-  cbv [builtin_value current_tick_str get_tick_str get_final_tick_str fst].
-  rewrite nth_last. split; [reflexivity |].
+  intros F ticks tab s w Hn n. unfold key_value. eval_key.
+  cbv [builtin_value fst]. rewrite current_tick_str_spec.
+  split; [reflexivity |].
   apply N.mod_lt. subst n. lia.
+Qed.
+
+(** a tick string without TAB is shown verbatim; with TABs, none is left in the frame *)
+Lemma spinner_no_tab : forall F ticks tab s w,
+  let t := if s_finished s then last ticks []
+           else nth (N.to_nat (s_tick s mod (N.of_nat (List.length ticks) - 1))) ticks [] in
+  (~ In 9 t -> fst (key_value F ticks tab s "spinner" w) = t)
+  /\ ~ In 9 (fst (key_value F ticks tab s "spinner" w)).
+Proof.
+  intros F ticks tab s w t. unfold key_value. eval_key.
+  cbv [builtin_value fst]. rewrite current_tick_str_spec. fold t. split.
+  - intros Hn. apply expand_tabs_no_tab. exact Hn.
+  - apply expand_tabs_tab_free.
 Qed.
 
 (** before the finish the final tick string (index n-1) is never selected, and the cycle has
     period n-1 *)
-Lemma spinner_period : forall F ticks s s' w,
+Lemma spinner_period : forall F ticks tab s s' w,
   (2 <= List.length ticks)%nat ->
   s_finished s = false -> s_finished s' = false ->
   s_tick s' = s_tick s + (N.of_nat (List.length ticks) - 1) ->
-  fst (key_value F ticks s' "spinner" w) = fst (key_value F ticks s "spinner" w).
+  fst (key_value F ticks tab s' "spinner" w) = fst (key_value F ticks tab s "spinner" w).
 Proof.
-  intros F ticks s s' w Hn Hf Hf' Ht. unfold key_value. eval_key.
+  intros F ticks tab s s' w Hn Hf Hf' Ht. unfold key_value. eval_key.
   cbv [builtin_value current_tick_str get_tick_str fst]. rewrite Hf, Hf', Ht.
   set (m := N.of_nat (List.length ticks) - 1).
   assert (Hm : m <> 0) by (subst m; lia).
@@ -208,27 +257,16 @@ Section Custom.
   Lemma builtin_render : forall (sty : style T) s k w,
     lookup k (customs sty) = None ->
     render_key TO F sty s k w =
-      (let buf := fst (key_value F (tick_strings sty) s k w) in
+      (let buf := fst (key_value F (tick_strings sty) (sty_tab sty) s k w) in
        match w with Some w => pad_left buf w | None => buf end,
-       snd (key_value F (tick_strings sty) s k w)).
+       snd (key_value F (tick_strings sty) (sty_tab sty) s k w)).
   Proof.
     intros sty s k w H. unfold render_key, key_text. rewrite H.
-    destruct (key_value F (tick_strings sty) s k w). reflexivity.
+    destruct (key_value F (tick_strings sty) (sty_tab sty) s k w). reflexivity.
   Qed.
 
-  Definition part_text (sty : style T) (s : snapshot) (p : part) : text :=
-    match p with
-    | PLit l => l
-    | PKey k w => fst (render_key TO F sty s k w)
-    | PNewLine => []
-    end.
-  (** a part of a line that does not set the wide element (in particular: not a NewLine) *)
-  Definition part_narrow (sty : style T) (s : snapshot) (p : part) : Prop :=
-    match p with
-    | PLit _ => True
-    | PKey k w => snd (render_key TO F sty s k w) = None
-    | PNewLine => False
-    end.
+  Notation part_text := (part_text TO F).
+  Notation part_narrow := (part_narrow TO F).
 
   Definition merge_wide (wd' wd : option wide) : option wide :=
     match wd' with Some x => Some x | None => wd end.
@@ -330,7 +368,6 @@ Section Custom.
 
   (** ---------------------------------------------------------------- lines *)
   Definition is_newline (p : part) : bool := match p with PNewLine => true | _ => false end.
-  Definition single_line (ps : list part) : Prop := Forall (fun p => p <> PNewLine) ps.
 
   Lemma split_lines_nonnil : forall ps, split_lines ps <> [].
   Proof.
@@ -370,12 +407,6 @@ Section Custom.
   Qed.
 
   (** joining the lines again (with NewLine parts between them) gives the template back *)
-  Fixpoint unsplit (segs : list (list part)) : list part :=
-    match segs with
-    | [] => []
-    | [seg] => seg
-    | seg :: rest => seg ++ PNewLine :: unsplit rest
-    end.
   Lemma unsplit_split : forall ps, unsplit (split_lines ps) = ps.
   Proof.
     induction ps as [| p r IH]; [reflexivity |].
@@ -497,12 +528,6 @@ Section History.
   Qed.
 
   (** which calls draw at all *)
-  Definition op_draws (o : bop) (allowed : bool) : bool :=
-    match o with
-    | OInc _ | ODec _ | OSetPos _ => allowed
-    | OResetEta | OResetElapsed => false
-    | _ => true
-    end.
   Lemma draws_iff : forall (b : bstate T) o e,
     is_some (snd (bstep b (o, e))) = op_draws o (e_allowed e).
   Proof.
@@ -515,29 +540,11 @@ Section History.
   Definition core (b : bstate T) : N * option N * N * status * text * text * N :=
     (b_pos b, b_len b, b_tick b, b_status b, b_message b, b_prefix b, b_tab b).
 
-  Definition apply_event (t : T) (ev : bar_event * view * N) : T :=
-    match ev with
-    | (BTick, v, now) => t_tick TO t v now
-    | (BReset, v, now) => t_reset TO t v now
-    | (BNone, _, _) => t
-    end.
-
-  (** the tick / reset events of the bar: the class of the call ([op_event], written from the
-      documentation) with the state right after the call's own update and the call's instant *)
-  Definition step_events (b : bstate T) (oe : bop * env) : list (bar_event * view * N) :=
-    match op_event (fst oe) (e_allowed (snd oe)) with
-    | BNone => []
-    | ev => [(ev, bview (fst (bstep b oe)), e_now (snd oe))]
-    end.
-
-  Fixpoint bar_events (b : bstate T) (ops : list (bop * env)) : list (bar_event * view * N) :=
-    match ops with
-    | [] => []
-    | oe :: r => step_events b oe ++ bar_events (fst (bstep b oe)) r
-    end.
-
-  Definition on_trackers (f : T -> T) (l : list (string * T)) : list (string * T) :=
-    map (fun kt => (fst kt, f (snd kt))) l.
+  Notation apply_event := (apply_event TO).
+  Notation step_events := (step_events TO F tw).
+  Notation bar_events := (bar_events TO F tw).
+  Notation on_trackers := (@on_trackers T).
+  Notation proj := (@proj T).
 
   Lemma on_trackers_id : forall l, on_trackers (fun t => t) l = l.
   Proof.
@@ -587,11 +594,6 @@ Section History.
 
   (** the spinner counter: one step per tick() / update() / admitted position update,
       saturating at u64::MAX *)
-  Fixpoint spins (ops : list (bop * env)) : N :=
-    match ops with
-    | [] => 0
-    | (o, e) :: r => (if op_spins o (e_allowed e) then 1 else 0) + spins r
-    end.
 
   Lemma step_tick : forall (b : bstate T) o e,
     b_tick (fst (bstep b (o, e)))
@@ -624,35 +626,6 @@ Section History.
 
   (** position, length and finished flag are those of the C07 model (Pos.v) run on the
       projected history: the closed forms proved there describe what the keys show *)
-  Definition fin_kind (f : fin) : finish_kind :=
-    match f with
-    | FinAndLeave => AndLeave
-    | FinWithMessage _ => WithMessage
-    | FinAndClear => AndClear
-    | FinAbandon => Abandon
-    | FinAbandonWithMessage _ => AbandonWithMessage
-    end.
-  Definition to_pops (oe : bop * env) : list pop :=
-    match fst oe with
-    | OTick | OSetMessage _ | OSetPrefix _ | OForceDraw | OSetTabWidth _ => []
-    | OInc d => [Inc d]
-    | ODec d => [Dec d]
-    | OSetPos p => [SetPos p]
-    | OSetLen l => [SetLen l]
-    | OIncLen d => [IncLen d]
-    | ODecLen d => [DecLen d]
-    | OUnsetLen => [UnsetLen]
-    | OFinish f => [Finish (fin_kind f)]
-    | OResetAll => [ResetAll]
-    | OResetEta => [ResetEta]
-    | OResetElapsed => [ResetElapsed]
-    | OUpdate p l =>
-        (match p with Some p => [SetPos p] | None => [] end)
-        ++ (match l with Some l => [SetLen l] | None => [] end)
-    end.
-  Definition proj (b : bstate T) : pstate :=
-    {| pos := b_pos b; len := b_len b; finished := is_finished (b_status b) |}.
-
   Lemma step_proj : forall (b : bstate T) oe,
     proj (fst (bstep b oe)) = prun (proj b) (to_pops oe).
   Proof.
@@ -720,11 +693,11 @@ Qed.
 
 (** ------------------------------------------------------------------ frames = documented table *)
 Open Scope string_scope.
-Lemma narrow_keys : forall F ticks s k w,
+Lemma narrow_keys : forall F ticks tab s k w,
   In k DOCUMENTED_KEYS -> k <> "wide_bar" -> k <> "wide_msg" ->
-  snd (key_value F ticks s k w) = None.
+  snd (key_value F ticks tab s k w) = None.
 Proof.
-  intros F ticks s k w Hin Hb Hm. unfold DOCUMENTED_KEYS in Hin. cbn [In] in Hin.
+  intros F ticks tab s k w Hin Hb Hm. unfold DOCUMENTED_KEYS in Hin. cbn [In] in Hin.
   unfold key_value.
   repeat (destruct Hin as [<- | Hin];
           [ try (exfalso; apply Hb; reflexivity); try (exfalso; apply Hm; reflexivity);
@@ -738,24 +711,12 @@ Section Frames.
   Variable F : formatters.
   Variable tw : N.
 
-  (** a part whose value the documentation defines: literal text, or a documented, non-wide,
-      non-shadowed key (per_sec without a width) *)
-  Definition doc_part (sty : style T) (p : part) : Prop :=
-    match p with
-    | PLit _ => True
-    | PKey k w =>
-        lookup k (customs sty) = None /\ In k DOCUMENTED_KEYS
-        /\ k <> "wide_bar" /\ k <> "wide_msg" /\ (k = "per_sec" -> w = None)
-    | PNewLine => False
-    end.
-  Definition doc_text (sty : style T) (s : snapshot) (p : part) : text :=
-    match p with
-    | PLit l => l
-    | PKey k w =>
-        let v := fst (documented F (tick_strings sty) s k w) in
-        match w with Some w => pad_left v w | None => v end
-    | PNewLine => []
-    end.
+  Notation doc_part := (@doc_part T).
+  Notation doc_part_ml := (@doc_part_ml T).
+  Notation doc_text := (doc_text F).
+  Notation line_alone := (line_alone TO F tw).
+  Notation line_ok := (line_ok TO F).
+  Notation doc_line := (doc_line F).
 
   Lemma doc_parts_text : forall sty s ps,
     Forall (doc_part sty) ps ->
@@ -879,8 +840,6 @@ Section Frames.
   Qed.
 
   (** one template line rendered as a (single-line) template of its own *)
-  Definition line_alone (sty : style T) (s : snapshot) (seg : list part) : list text :=
-    format_state TO F (with_template sty seg) s tw.
 
   Lemma line_alone_eq : forall (sty : style T) s seg,
     single_line seg ->
@@ -901,9 +860,6 @@ Section Frames.
       WideElement::expand replaces EVERY NUL of the line.  A line that has no wide key of its own
       is [line_ok] when its text contains no NUL (then the carried element finds nothing to
       replace); a line with a wide key of its own is always [line_ok]. *)
-  Definition line_ok (sty : style T) (s : snapshot) (seg : list part) : Prop :=
-    snd (render_parts TO F sty s seg [] None) = None ->
-    ~ In 0 (fst (render_parts TO F sty s seg [] None)).
 
   Lemma push_line_carried : forall sty s seg wd,
     line_ok sty s seg ->
@@ -990,17 +946,6 @@ Section Frames.
   Qed.
 
   (** a part of a multi-line template whose value the documentation defines *)
-  Definition doc_part_ml (sty : style T) (p : part) : Prop :=
-    match p with
-    | PNewLine => True
-    | _ => doc_part sty p
-    end.
-
-  Definition doc_line (sty : style T) (s : snapshot) (seg : list part) : list text :=
-    match concat (map (doc_text sty s) seg) with
-    | [] => []
-    | line => split_nl line []
-    end.
 
   (** THE property for multi-line templates of literals and documented, non-wide, non-shadowed
       keys: every template line of every frame shows the documented values of the state the call
